@@ -2,6 +2,7 @@
   C18 — geometry values compare, hash, parse and print consistently.  Property theorems.
 -/
 import PcVerif.Model.Geometry
+import PcVerif.Generated.ReadWorld
 import PcVerif.Lemmas.GeoLemmas
 import PcVerif.Lemmas.GeoPrint
 namespace PcVerif.Props.C18
@@ -172,5 +173,8 @@ theorem padding_print_order (p : Padding) :
 example : (match Size.fromString "12.5%".toList with | .ok z => z.unit == .pct | _ => false) = true := by decide
 example : Size.fromString "12.5 %".toList = .error .syntaxError := by decide
 example : (⟨⟨1, .px⟩, ⟨2, .px⟩⟩ : Point).pyEq (some ⟨⟨1, .px⟩, ⟨2, .em⟩⟩) = false := by decide
+
+/-- **C18 (parsing has no memory).** no function of the library remembers what it returned (the translator's scan for caching decorators and weak-reference flyweight tables over every module is empty): `from_string` / `from_xml_attribute` are the functions of their argument the model says they are, so parsing a text gives the same value whatever was parsed before -/
+theorem no_process_wide_memo : Generated.memoisedSites = [] := by decide
 
 end PcVerif.Props.C18
